@@ -664,6 +664,40 @@ func sweepSession(stage string, code int) error {
 	}
 }
 
+// sweepFirst: Connect on a stream whose first message is a valid ReaderEventNotification with the given
+// ConnectionAttemptEvent status; then the peer closes.
+func sweepFirst(code int) (err error, panicValue string, wedged bool) {
+	cliConn, peer := net.Pipe()
+	defer peer.Close()
+	defer cliConn.Close()
+	pl := []byte{0x00, 0xF6, 0x00, 0x16, 0x00, 0x80, 0x00, 0x0C, 0, 0, 0, 0, 0, 0, 0, 1, 0x01, 0x00, 0x00, 0x06, byte(code >> 8), byte(code)}
+	go func() {
+		_, _ = peer.Write(peerFrame(0, 1, 63, 0, pl))
+		time.Sleep(200 * time.Microsecond)
+		peer.Close()
+	}()
+	type out struct {
+		err error
+		pv  string
+	}
+	done := make(chan out, 1)
+	c := NewClient(WithLogger(nil), WithVersion(Version1_0_1))
+	go func() {
+		defer func() {
+			if r := recover(); r != nil {
+				done <- out{nil, fmt.Sprint(r)}
+			}
+		}()
+		done <- out{c.Connect(cliConn), ""}
+	}()
+	select {
+	case o := <-done:
+		return o.err, o.pv, false
+	case <-time.After(3 * time.Second):
+		return nil, "", true
+	}
+}
+
 func TestVerifC10StatusSweep(t *testing.T) {
 	lines, w, closeIO := verifIO(t)
 	defer closeIO()
@@ -696,6 +730,44 @@ func TestVerifC10StatusSweep(t *testing.T) {
 					}
 				}
 			}
+		case "first":
+			// every 16-bit ConnectionAttemptEvent status in an otherwise valid first message; Connect runs on a
+			// goroutine of this harness, so a panic in it is caught here
+			var mu sync.Mutex
+			var wg sync.WaitGroup
+			jobs := make(chan int, 64)
+			for k := 0; k < 8; k++ {
+				wg.Add(1)
+				go func() {
+					defer wg.Done()
+					for code := range jobs {
+						err, pv, wedged := sweepFirst(code)
+						mu.Lock()
+						res.Calls++
+						switch {
+						case pv != "":
+							res.Panics["first:connect"] = append(res.Panics["first:connect"], code)
+							if _, ok := res.PanicTx["first:connect"]; !ok {
+								res.PanicTx["first:connect"] = fmt.Sprintf("status %d: %s", code, pv)
+							}
+						case wedged:
+							res.Wedged["first:connect"] = append(res.Wedged["first:connect"], code)
+						default:
+							if code != 0 && errors.Is(err, io.EOF) {
+								// accepted a refused connection and went on to read: diagnosis only
+								res.NoError["first:connect"] = append(res.NoError["first:connect"], code)
+							}
+							res.note("first:error-text", code, err)
+						}
+						mu.Unlock()
+					}
+				}()
+			}
+			for code := rq.Lo; code <= rq.Hi; code++ {
+				jobs <- code
+			}
+			close(jobs)
+			wg.Wait()
 		case "session":
 			var mu sync.Mutex
 			var wg sync.WaitGroup
